@@ -214,10 +214,16 @@ func (c *FileCache[MetadataT]) Cache(key CacheKey, data io.Reader, expires time.
 	}
 
 	c.mu.Lock()
+	replaced, overwrite := c.entriesMetadata[key]
 	c.entriesMetadata[key] = meta
 	c.mu.Unlock()
 
-	incrementCacheEntries()
+	if overwrite {
+		// The key already had an entry: it leaves the accounting, the entry count stays.
+		decrementCacheSize(&c.byteSize, replaced.Size)
+	} else {
+		incrementCacheEntries()
+	}
 	addCacheSize(&c.byteSize, fileSize)
 
 	slog.Debug("Successfully cached data", "key", key.Hex, "size", fileSize)
